@@ -80,7 +80,7 @@ def run_dm1(case):
     viol = M.Violations()
     tag = dict(layer=layer)
     S = W.stack('S')
-    s_addr = rng.randrange(2, 120)
+    s_addr = rng.randrange(2, 120) if rng.random() > 0.1 else 0          # address 0 is a legal (and falsy) address
     sca = W.ca(S, s_addr, identity_number=1)
     nrx = rng.choice([1, 2])
     got = {}
